@@ -4,6 +4,7 @@
 
 use miniscript::bitcoin;
 use miniscript::policy::Liftable;
+use miniscript::Descriptor;
 
 use super::c01::case_cfg;
 use super::c02::search_cfg;
@@ -40,8 +41,73 @@ pub fn run(cfg: &RunCfg, rep: &mut Report) {
     let mut not_liftable = 0u64;
     for i in cfg.cases(total) {
         let mut rng = cfg.case_rng(i);
-        let case = gen_desc_case(&mut rng, &world, &ccfg);
-        let desc = match guarded(|| parse_desc(&case.desc)) {
+        let mut ccfg = ccfg.clone();
+        ccfg.timelock_heavy = rng.chance(1, 4);
+        let mut case = gen_desc_case(&mut rng, &world, &ccfg);
+        // one case in six is a multi-leaf tr() with lock-heavy leaves for the API path below
+        if rng.chance(1, 6) {
+            ccfg.timelock_heavy = true;
+            ccfg.max_leaves = 3;
+            ccfg.max_nodes = ccfg.max_nodes.max(24);
+            for _ in 0..40 {
+                case = gen_desc_case(&mut rng, &world, &ccfg);
+                if case.kind == DescKind::Tr && case.frags.len() >= 2 {
+                    break;
+                }
+            }
+        }
+        // directed family: a tap leaf that cannot be lifted (two lock-time units on one path) but
+        // has a second, spendable path, next to ordinary leaves
+        let mut force_api = false;
+        if rng.chance(1, 12) {
+            use crate::frag::{Frag, KeyForm, KeyRef};
+            let mut ids: Vec<usize> = (0..world.keys.len()).collect();
+            rng.shuffle(&mut ids);
+            let k = |n: usize| KeyRef { id: ids[n], form: KeyForm::XOnly };
+            let bx = |x: Frag| Box::new(x);
+            let pk = |n: usize| Frag::Check(Box::new(Frag::PkK(k(n))));
+            let v = |x: Frag| Frag::Verify(Box::new(x));
+            let mixed = match rng.below(3) {
+                0 => Frag::AndV(bx(v(Frag::Older((1 << 22) | 1))), bx(Frag::Older(1))),
+                1 => Frag::AndV(bx(v(Frag::After(500_000_001))), bx(Frag::After(10))),
+                _ => Frag::AndV(bx(v(Frag::Older(2))), bx(Frag::AndV(bx(v(pk(4))), bx(Frag::Older((1 << 22) | 2))))),
+            };
+            let odd = match rng.below(3) {
+                0 => Frag::OrD(bx(pk(1)), bx(Frag::AndV(bx(v(pk(2))), bx(mixed)))),
+                1 => Frag::OrI(bx(mixed), bx(pk(1))),
+                _ => Frag::AndV(bx(v(pk(1))), bx(Frag::OrD(bx(pk(2)), bx(mixed)))),
+            };
+            let mut frags = vec![pk(3), odd];
+            if rng.coin() {
+                frags.push(Frag::AndV(bx(v(pk(5))), bx(Frag::Older(5))));
+            }
+            rng.shuffle(&mut frags);
+            case = DescCase { kind: DescKind::Tr, desc: String::new(), frags, internal: Some(k(0)), cx: Some(crate::frag::Cx::Tap) };
+            force_api = true;
+        }
+        // tr() descriptors are also assembled through the API from leaves parsed without the
+        // sanity rules: the string parser would refuse e.g. a leaf mixing lock-time units, but
+        // `Tr::new` accepts it, and then lift() must fail or tell the truth about every leaf
+        let via_api = force_api || (case.kind == DescKind::Tr && !case.frags.is_empty() && rng.coin());
+        let parsed = if via_api {
+            guarded(std::panic::AssertUnwindSafe(|| -> Result<Descriptor<crate::world::Dk>, String> {
+                use miniscript::descriptor::{TapTree, Tr};
+                let mut tree: Option<TapTree<crate::world::Dk>> = None;
+                for f in &case.frags {
+                    let ms = miniscript::Miniscript::<crate::world::Dk, miniscript::Tap>::from_str_insane(&f.to_string_with(&world)).map_err(|e| e.to_string())?;
+                    let leaf = TapTree::leaf(ms);
+                    tree = Some(match tree {
+                        None => leaf,
+                        Some(t) => TapTree::combine(t, leaf).map_err(|e| e.to_string())?,
+                    });
+                }
+                let ik = world.dk_xonly(case.internal.unwrap().id);
+                Tr::new(ik, tree).map(Descriptor::Tr).map_err(|e| e.to_string())
+            }))
+        } else {
+            guarded(|| parse_desc(&case.desc))
+        };
+        let desc = match parsed {
             Ok(Ok(d)) => d,
             _ => {
                 rep.eval();
@@ -49,6 +115,19 @@ pub fn run(cfg: &RunCfg, rep: &mut Report) {
                 continue;
             }
         };
+        if via_api {
+            case.desc = desc.to_string();
+            rep.count("tr-assembled-through-the-api");
+            if let Descriptor::Tr(tr) = &desc {
+                let bad = tr.leaves().filter(|l| l.miniscript().lift().is_err()).count();
+                let all = tr.leaves().count();
+                if bad > 0 && bad < all {
+                    rep.count("tr-with-an-unliftable-leaf-beside-liftable-ones");
+                } else if bad > 0 {
+                    rep.count("tr-with-only-unliftable-leaves");
+                }
+            }
+        }
         if !case.spec_types().iter().all(|t| matches!(t, Some(t) if t.base == crate::oracle::spec_types::Base::B)) {
             continue;
         }
@@ -80,6 +159,50 @@ pub fn run(cfg: &RunCfg, rep: &mut Report) {
         let key_ids = case.key_ids();
         let pre_ids = case.pre_ids();
         let tls = timelock_worlds(&mut rng, &case, 4);
+        // (a) the lifted policy against the harness's own lift of the same AST, on the FULL truth
+        // table of key / preimage availability in every sampled lock-time world. The model lift is
+        // itself confronted with witness existence in (b) on the sampled worlds.
+        {
+            let model = match case.kind {
+                DescKind::Tr => {
+                    let mut alts = vec![(1usize, Pol::Atom(Atom::Key(case.internal.unwrap().id)))];
+                    alts.extend(case.frags.iter().map(|f| (1usize, f.to_pol())));
+                    Pol::Or(alts)
+                }
+                _ => case.frags[0].to_pol(),
+            };
+            if key_ids.len() + pre_ids.len() <= 12 {
+                let mut differs: Option<String> = None;
+                'tt: for (lt, seq) in &tls {
+                    for km in 0u64..(1 << key_ids.len()) {
+                        for pm in 0u64..(1 << pre_ids.len()) {
+                            let mut pw = PolWorld { keys: vec![false; world.keys.len()], pre: vec![false; world.pre.len()], lock_time: *lt, sequence: *seq };
+                            for (n, id) in key_ids.iter().enumerate() {
+                                pw.keys[*id] = km & (1 << n) != 0;
+                            }
+                            for (n, id) in pre_ids.iter().enumerate() {
+                                pw.pre[*id] = pm & (1 << n) != 0;
+                            }
+                            rep.add("truth-table-rows", 1);
+                            let (a, b) = (pol.eval(&pw.sigma()), model.eval(&pw.sigma()));
+                            if a != b {
+                                differs = Some(format!(
+                                    "keys {:?} preimages {:?} nLockTime={} nSequence={:#x}: library policy says {}, the AST means {}",
+                                    key_ids.iter().enumerate().filter(|(n, _)| km & (1 << n) != 0).map(|(_, i)| *i).collect::<Vec<_>>(),
+                                    pre_ids.iter().enumerate().filter(|(n, _)| pm & (1 << n) != 0).map(|(_, i)| *i).collect::<Vec<_>>(),
+                                    lt, seq, a, b
+                                ));
+                                break 'tt;
+                            }
+                        }
+                    }
+                }
+                match differs {
+                    Some(d) => rep.violation(i, format!("C07:lift-differs-from-ast-meaning:{:?}", case.kind), format!("lift({}) = {} ; {}", case.desc, lifted, d)),
+                    None => rep.count("lift-equals-ast-meaning(full truth table)"),
+                }
+            }
+        }
         let kms = subsets(&mut rng, key_ids.len(), 5, 16);
         let pms = subsets(&mut rng, pre_ids.len(), 2, 4);
         let mut combos = vec![];
